@@ -11,7 +11,7 @@ AnalysisError (exit 2).
 from __future__ import annotations
 
 import ast
-from typing import Any, Callable, Dict, List, Optional, Sequence, Tuple
+from typing import Any, Callable, Dict, List, Optional, Sequence, Set, Tuple
 
 from .fold import EnumMember, EnumTable, Folder, FoldError
 from .model import AnalysisError, Module, dotted
@@ -73,6 +73,15 @@ class Outcome:
         self.rewinds = m.rewinds
         self.line_incs = m.line_incs
         self.lists = {k: list(v) for k, v in m.lists.items()}
+        self.inputs = list(m.inputs[:m.max_pos])
+        self.flags = dict(m.flag_values)
+        self.choices = dict(m.choices)
+        self.double_rewind = m.double_rewind
+        self.ends_after_rewind = m.last_was_rewind
+        self.reads_before_write = set(m.reads_before_write)
+        self.real_reads = m.real_reads
+        self.eof_reads = m.eof_reads
+        self.calls = list(m.calls)
 
     def __repr__(self) -> str:
         return f'<{self.kind} {self.value!r} consumed={self.consumed} lists={self.lists}>'
@@ -104,6 +113,23 @@ class Machine:
         self.line_incs = 0
         self.methods = methods or {}
         self.steps = 0
+        self.max_pos = 0
+        self.lazy_flags: Set[str] = set()
+        self.flag_values: Dict[str, Any] = {}
+        self.choices: Dict[str, Any] = {}
+        self.stop_at_loops = False
+        self.last_was_rewind = True      # conservative: the previous iteration / caller may have ended with a rewind
+        self.double_rewind = False
+        self.reads_before_write: Set[str] = set()
+        self.written: Set[str] = set()
+        self.real_reads = 0
+        self.eof_reads = 0
+        self.calls: List[str] = []
+
+    def choose(self, key: str, options: Sequence[Any]) -> Any:
+        if key not in self.choices:
+            raise _Signal('need-choice', (key, list(options)))
+        return self.choices[key]
 
     # -- driving -------------------------------------------------------------------------------
     def run_body(self, body: Sequence[ast.stmt], in_loop: bool) -> Outcome:
@@ -114,7 +140,7 @@ class Machine:
                 return Outcome('next', None, self)
             if s.kind == 'break' and in_loop:
                 return Outcome('break', None, self)
-            if s.kind in ('return', 'raise', 'need-input'):
+            if s.kind in ('return', 'raise', 'need-input', 'need-flag', 'need-choice', 'inner-loop'):
                 return Outcome(s.kind, s.value, self)
             raise AnalysisError(f'{self.mod.relpath}: unexpected control signal {s.kind}')
         except _PyExc as e:
@@ -151,9 +177,11 @@ class Machine:
                 return
             if tgt == 'self._char_index' and isinstance(st.op, ast.Sub) and self.eval(st.value) == 1:
                 self.rewinds += 1
-                if self.pos <= 0:
-                    raise AnalysisError(f'{self.mod.relpath}:{st.lineno}: rewind before any character was read')
-                self.pos -= 1
+                if self.last_was_rewind:
+                    self.double_rewind = True
+                self.last_was_rewind = True
+                if self.pos > 0:
+                    self.pos -= 1
                 return
             raise AnalysisError(f'{self.mod.relpath}:{st.lineno}: unsupported augmented assignment `{ast.unparse(st)}`')
         if isinstance(st, ast.If):
@@ -165,6 +193,8 @@ class Machine:
         if isinstance(st, ast.While):
             if not (isinstance(st.test, ast.Constant) and st.test.value is True):
                 raise AnalysisError(f'{self.mod.relpath}:{st.lineno}: only `while True` loops are modelled')
+            if self.stop_at_loops:
+                raise _Signal('inner-loop', st)
             while True:
                 try:
                     self.exec_block(st.body)
@@ -210,6 +240,7 @@ class Machine:
 
     def assign(self, t: ast.AST, val: Any) -> None:
         if isinstance(t, ast.Name):
+            self.written.add(t.id)
             if isinstance(val, list):
                 self.lists[t.id] = val
                 self.env.pop(t.id, None)
@@ -240,8 +271,12 @@ class Machine:
             return v
         if isinstance(n, ast.Name):
             if n.id in self.env:
+                if n.id not in self.written:
+                    self.reads_before_write.add(n.id)
                 return self.env[n.id]
             if n.id in self.lists:
+                if n.id not in self.written:
+                    self.reads_before_write.add(n.id)
                 return self.lists[n.id]
             try:
                 return self.folder.global_(n.id)
@@ -253,6 +288,10 @@ class Machine:
                 a = d[5:]
                 if a in self.selfattrs:
                     return self.selfattrs[a]
+                if a in self.lazy_flags:
+                    if a not in self.flag_values:
+                        raise _Signal('need-flag', a)
+                    return self.flag_values[a]
                 raise AnalysisError(f'{self.mod.relpath}:{n.lineno}: self.{a} read but not part of the modelled state')
             try:
                 return self.folder.fold(n, {})
@@ -345,10 +384,17 @@ class Machine:
                 raise _Signal('need-input')
             v = self.inputs[self.pos]
             self.pos += 1
+            self.max_pos = max(self.max_pos, self.pos)
+            self.last_was_rewind = False
+            if v is None:
+                self.eof_reads += 1
+            else:
+                self.real_reads += 1
             return v
         if fn == 'self.error':
             return ErrorValue([self.eval(a) for a in n.args])
         if fn and fn.startswith('self.') and fn[5:] in self.methods:
+            self.calls.append(fn[5:])
             return self.methods[fn[5:]](self, [self.eval(a) for a in n.args])
         if isinstance(n.func, ast.Attribute):
             recvname = dotted(n.func.value)
@@ -371,6 +417,8 @@ class Machine:
                     return OTHER
                 if isinstance(v, str):
                     return v.casefold()
+        if isinstance(n.func, ast.Name) and n.func.id[:1].isupper() and n.func.id.endswith(('Error', 'Exception', 'Warning')):
+            return ('<exception-object>', n.func.id)
         raise AnalysisError(f'{self.mod.relpath}:{n.lineno}: call not modelled in evaluated slice: `{ast.unparse(n)[:80]}`')
 
 
@@ -407,3 +455,41 @@ def mentioned_chars(fn: ast.AST, folder: Folder, extra_tables: Sequence[Any] = (
             for x in t:
                 chars.update(x)
     return sorted(chars)
+
+
+def explore(make: Callable[[List[Any], Dict[str, Any], Dict[str, Any]], Machine], body: Sequence[ast.stmt], in_loop: bool,
+            alphabet: Sequence[Any], max_inputs: int = 6, limit: int = 200000) -> List[Outcome]:
+    """All outcomes of one execution of `body`, branching lazily over the next input character class, over
+    option flags when they are first read, and over declared nondeterministic choices."""
+    results: List[Outcome] = []
+    work: List[Tuple[List[Any], Dict[str, Any], Dict[str, Any]]] = [([], {}, {})]
+    runs = 0
+    while work:
+        inputs, flags, choices = work.pop()
+        runs += 1
+        if runs > limit:
+            raise AnalysisError('evaluator: exploration limit exceeded')
+        m = make(inputs, flags, choices)
+        out = m.run_body(body, in_loop)
+        if out.kind == 'need-input':
+            if len(inputs) >= max_inputs:
+                raise AnalysisError(f'evaluator: more than {max_inputs} characters read in one iteration')
+            if inputs and inputs[-1] is None:
+                work.append((inputs + [None], flags, choices))     # EOF is sticky
+            else:
+                for c in list(alphabet) + [None]:
+                    work.append((inputs + [c], flags, choices))
+        elif out.kind == 'need-flag':
+            for v in (False, True):
+                f2 = dict(flags)
+                f2[out.value] = v
+                work.append((inputs, f2, choices))
+        elif out.kind == 'need-choice':
+            key, options = out.value
+            for o in options:
+                c2 = dict(choices)
+                c2[key] = o
+                work.append((inputs, flags, c2))
+        else:
+            results.append(out)
+    return results
